@@ -186,11 +186,14 @@ class LogRecorder(message.MessageLogger):
         self._enable_strict = False
         self._warning_count = 0
         self.records = []
+        self.full = []
 
     def log(self, log_type, text, positions=None, prefix=None, marker_pos=None,
             marker_line=None):
         self._warning_count += 1
         self.records.append((log_type, text))
+        self.full.append({'type': log_type, 'text': text, 'positions': positions, 'marker_pos': marker_pos,
+                          'marker_line': marker_line})
         if log_type == message.FATAL:
             raise SystemExit(text)
 
